@@ -177,3 +177,67 @@ Example C10_nonvacuous :
           [U"Op" ++ SLASH :: ex_fmt 0 ++ SLASH :: U"a1"; U"Op" ++ SLASH :: ex_fmt 1 ++ SLASH :: U"f6"].
 Proof. exact ex_nonvacuous. Qed.
 Print Assumptions C10_nonvacuous.
+
+(** ---- non-vacuity, remaining premises (wp-audit) ---- *)
+(** the premises not spelled out by [C10_nonvacuous], for the same history [ex_hist]: a shuffle that is not the
+    identity (reversal) for ids and for bucket objects, a directory listing in another order than the store, both
+    kinds of admissible limit, the category domain (projections of [wf_all]), JSON-native metadata *)
+Example C10_premises_nonvacuous :
+  (forall l : list str, Permutation (rev l) l) /\ (forall l : list rec, Permutation (rev l) l) /\
+  Permutation (rev (store_of file_name ex_hist)) (store_of file_name ex_hist) /\
+  rev (store_of file_name ex_hist) <> store_of file_name ex_hist /\
+  (forall r, In r ex_hist -> ~ In SLASH (r_cat r)) /\ (forall r, In r ex_hist -> wf_file r) /\
+  limit_ok None /\ limit_ok (Some 2) /\ ~ In SLASH (U"Op") /\
+  (forall r, In r ex_hist -> same (r_meta r) = r_meta r) /\
+  (* and with the reversing shuffle, random listing, limit 2: two of the three ids of category Op *)
+  mem_iter glob_simple (@rev str) (store_of mem_id ex_hist) (U"Op") [] (Some 2) true = Listed [U"Op/f6"; U"Op/a1"].
+Proof.
+  pose proof (proj1 C10_nonvacuous) as W.
+  split; [intros l; symmetry; apply Permutation_rev|]. split; [intros l; symmetry; apply Permutation_rev|].
+  split; [symmetry; apply Permutation_rev|]. split; [vm_compute; discriminate|].
+  split; [intros r I; apply (W r I)|]. split; [intros r I; apply (W r I)|].
+  split; [discriminate|]. split; [discriminate|]. split; [vm_compute; intuition discriminate|].
+  split; [reflexivity|]. vm_compute. reflexivity.
+Qed.
+
+(** C10_round_robin_total / _exact: iterators with non-empty keys, one of them exhausted from the start, a
+    schedule that is not the loop counter, a limit below the total *)
+Example C10_round_robin_nonvacuous :
+  let fulls := [[U"a/1"; U"a/2"; U"a/3"]; []; [U"b/1"]] in
+  let spec := [U"b/1"; U"a/1"; U"a/2"; U"a/3"] in
+  let iters := map (firstn_opt (Some 2)) fulls in
+  (forall k, In k (concat iters) -> k <> []) /\
+  Permutation (concat fulls) spec /\ NoDup spec /\ (forall k, In k spec -> k <> []) /\
+  rr (rr_fuel iters) (fun n => 2 * n + 1) (Some 2) iters 0 0 = Listed [U"b/1"; U"a/1"].
+Proof.
+  cbv zeta. split; [intros k I; vm_compute in I; intuition (subst; discriminate)|].
+  split; [apply Permutation_sym; change (Permutation ([U"b/1"] ++ [U"a/1"; U"a/2"; U"a/3"]) ([U"a/1"; U"a/2"; U"a/3"] ++ [U"b/1"])); apply Permutation_app_comm|].
+  split; [repeat (constructor; [intros I; vm_compute in I; intuition discriminate|]); constructor|].
+  split; [intros k I; vm_compute in I; intuition (subst; discriminate)|].
+  vm_compute. reflexivity.
+Qed.
+
+(** C10_skip_incomplete: a caller filter with distinct keys that has its own entry for the incomplete flag (which
+    the default lookup replaces) next to a pattern entry; flags of the store in the domain; the default lookup
+    keeps the recording without a flag (re-saved a1), drops the incomplete one (f6) and the one the pattern rejects *)
+Example C10_skip_incomplete_nonvacuous :
+  let f := [(U"tenant", MStr (U"a*")); (INCOMPLETE, MBool true)] in
+  let s := store_of mem_id ex_hist in
+  NoDup (map fst f) /\ (forall x, In x s -> flag_domain (same (r_meta x))) /\
+  map mem_id (spec_recs glob_simple same s (U"Op") (lookup_filter true f)) = [U"Op/a1"] /\
+  map mem_id (spec_recs glob_simple same s (U"Op") (remove_key INCOMPLETE f)) = [U"Op/a1"; U"Op/f6"] /\
+  map mem_id (spec_recs glob_simple same s (U"Op") f) = [U"Op/f6"].
+Proof.
+  cbv zeta. split; [repeat (constructor; [intros I; vm_compute in I; intuition discriminate|]); constructor|].
+  split.
+  - intros x I. apply (proj1 (proj2 (proj2 C10_nonvacuous))). apply (proj1 (C10_store_of_saves mem_id ex_hist)). exact I.
+  - vm_compute. repeat split; reflexivity.
+Qed.
+
+(** C10_category_of_created_id / C10_absent_or_none_kept: premises on a concrete record *)
+Example C10_category_nonvacuous :
+  let r := Rec (U"Op_Y") (U"c3") 5 0%Z [] in
+  ~ In SLASH (r_cat r) /\ r_cat r <> [] /\ ex_fmt (r_day r) <> [] /\ ~ In SLASH (ex_fmt (r_day r)) /\ r_uuid r <> [] /\
+  lookup INCOMPLETE (r_meta r) = None /\
+  s3_category_of (s3_id ex_fmt r) = Listed (U"Op_Y") /\ category_of (mem_id r) = U"Op_Y".
+Proof. vm_compute. repeat split; try reflexivity; try discriminate; intuition discriminate. Qed.
